@@ -40,7 +40,7 @@ def strategy(tier):
     return st.fixed_dictionaries({
         "module": G.module(p), "layout": G.layout_choices(24),
         "faults": st.lists(plan, min_size=1, max_size=2),
-        "mode": st.sampled_from(["file", "file", "file", "dir", "multi-first", "multi-middle", "subdir"]),
+        "mode": st.sampled_from(["file", "file", "file", "dir", "multi-first", "multi-middle", "subdir", "dir-twin", "multi-prefix"]),
         "flags": st.sampled_from(["default", "default", "all-off", "some-off"]),
         "exhaustive": st.just(tier == "thorough"),
     })
@@ -136,6 +136,20 @@ def run_one(text, mode, res, kind, ctx, flags="default"):
             with open(os.path.join(inp, "top.cmake"), "w") as f:
                 f.write("function(ok_top)\nendfunction()\n")
             argv = [inp, "-r", "-o", out]
+        elif mode == "dir-twin":
+            # a valid module whose name differs from the faulty one only in the case of the extension
+            with open(os.path.join(inp, "faulty.CMAKE"), "w") as f:
+                f.write("function(ok_twin)\nendfunction()\n")
+            argv = [inp, "-o", out]
+        elif mode == "multi-prefix":
+            # a good directory input, then the faulty file whose path starts with the same characters
+            gd = sb.path("else", "mod")
+            os.makedirs(gd)
+            with open(os.path.join(gd, "inner.cmake"), "w") as f:
+                f.write("function(ok_inner)\nendfunction()\n")
+            bad2 = sb.path("else", "mod.cmake")
+            os.rename(bad, bad2)
+            argv = [gd, bad2, "-r", "-o", out]
         elif mode == "multi-first":
             argv = [bad, good[0], good[1], "-o", out]
         elif mode == "multi-middle":
@@ -150,6 +164,10 @@ def run_one(text, mode, res, kind, ctx, flags="default"):
             argv += ["-s", cfg]
         r = S.run_main(argv, cwd=sb.path("cwd"))
         page = os.path.join(out, "deeper", "faulty.rst") if mode == "subdir" else os.path.join(out, "faulty.rst")
+        if mode == "multi-prefix":
+            page = os.path.join(out, "mod.rst")
+        if mode == "dir-twin":
+            page = os.path.join(out, "no-such-page")      # faulty.rst legitimately comes from the valid twin
         failed = r.exc is not None or r.code != 0
         skipped = "token recognition error" in r.stderr
         return failed, os.path.exists(page), skipped, r
